@@ -6,29 +6,37 @@ set -u
 cd "$(dirname "$0")"
 export GOFLAGS=-mod=mod GOPROXY=off GOSUMDB=off GOTOOLCHAIN=local
 export VERIF_DIR="$PWD"
+# the library under test: /repo, or a snapshot of it for background runs (VERIF_REPO)
+REPO="${VERIF_REPO:-/repo}"
 ID="${1:?property id}"; MODE="${2:-quick}"
 mkdir -p .build/bin evidence
 [ -f .build/overlay.json ] || python3 tools/mkoverlay.py >/dev/null || { echo "check.sh: runtime overlay generation failed" >&2; exit 2; }
-cmp -s /repo/go.sum mc/go.sum || cp /repo/go.sum mc/go.sum
+cmp -s "$REPO/go.sum" mc/go.sum || cp "$REPO/go.sum" mc/go.sum
+MODFLAG=""
+if [ "$REPO" != "/repo" ]; then
+  # alternate go.mod whose replace directive points at the snapshot
+  sed "s#=> /repo#=> $REPO#" mc/go.mod > ".build/alt-$$.mod"; cp mc/go.sum ".build/alt-$$.sum"
+  MODFLAG="-modfile=$PWD/.build/alt-$$.mod"
+fi
 BIN=".build/bin/mc-$ID-$$"
 RACEBIN=".build/bin/race19-$$"
 WORK=".build/c19-$$"
-trap 'rm -rf "$BIN" "$RACEBIN" "$WORK"' EXIT
+trap 'rm -rf "$BIN" "$RACEBIN" "$WORK" ".build/alt-$$.mod" ".build/alt-$$.sum"' EXIT
 fail_build() { cat .build/build-$ID.log >&2; echo "check.sh: build failed (infrastructure error, not a property verdict)" >&2; exit 2; }
 if [ "$ID" = "C19" ]; then
   # C19: re-instrument the current tree (library + first-party dependencies), build the
   # interleaving explorer with the instrumentation overlay and the free-running -race binary
   mkdir -p "$WORK/instr"
-  (cd /repo && go list -f '{{.ImportPath}} {{.Dir}}' ./... github.com/trajectoryjp/closest_go github.com/trajectoryjp/geodesy_go/coordinates \
+  (cd "$REPO" && go list -f '{{.ImportPath}} {{.Dir}}' ./... github.com/trajectoryjp/closest_go github.com/trajectoryjp/geodesy_go/coordinates \
       github.com/trajectoryjp/multidimensional-radix-tree/src/tree github.com/wroge/wgs84 | grep -v /examples/) > "$WORK/pkgs.txt" 2>.build/build-$ID.log || fail_build
   (cd mc && go build -o "../$WORK/instr-bin" ./cmd/instr) 2>.build/build-$ID.log || fail_build
   "$WORK/instr-bin" -out "$PWD/$WORK/instr" -overlay-in "$PWD/.build/overlay.json" -overlay-out "$PWD/$WORK/overlay.json" \
-      -vrt "$PWD/mc/_vrtsrc" -report "$PWD/$WORK/instr/report.json" "$WORK/pkgs.txt" >.build/build-$ID.log 2>&1 || fail_build
-  (cd mc && GODEBUG=goindex=0 go build -tags verif -overlay "../$WORK/overlay.json" -o "../$BIN" ./cmd/mc19) 2>.build/build-$ID.log || fail_build
-  (cd mc && go build -race -o "../$RACEBIN" ./cmd/race19) 2>.build/build-$ID.log || fail_build
+      -repo "$REPO" -vrt "$PWD/mc/_vrtsrc" -report "$PWD/$WORK/instr/report.json" "$WORK/pkgs.txt" >.build/build-$ID.log 2>&1 || fail_build
+  (cd mc && GODEBUG=goindex=0 go build $MODFLAG -tags verif -overlay "../$WORK/overlay.json" -o "../$BIN" ./cmd/mc19) 2>.build/build-$ID.log || fail_build
+  (cd mc && go build $MODFLAG -race -o "../$RACEBIN" ./cmd/race19) 2>.build/build-$ID.log || fail_build
   export VERIF_RACE19="$PWD/$RACEBIN" VERIF_INSTR_REPORT="$PWD/$WORK/instr/report.json"
 else
-  (cd mc && go build -tags verif -overlay ../.build/overlay.json -o "../$BIN" ./cmd/mc) 2>.build/build-$ID.log || fail_build
+  (cd mc && go build $MODFLAG -tags verif -overlay ../.build/overlay.json -o "../$BIN" ./cmd/mc) 2>.build/build-$ID.log || fail_build
 fi
 case "$MODE" in
   quick|thorough) "$BIN" -prop "$ID" -tier "$MODE"; exit $? ;;
